@@ -3,6 +3,13 @@
 'expect' names the mechanism that should fire, or says why the monitor is not expected to see the
 change (the two Gaussian setter-guarded ones and the mixed-state purity formula are probes of
 blind spots, see the notes at each entry).
+
+Result of `python -m vf.selftest C08` on 2026-09-23 (quick tier, seed 0): 7 / 11 caught.
+Missed: generaldyne-post-state-ignores-detection-noise and channel-noise-halved (the library's own
+covariance setter raises InvalidState, C08 books that as programs_raising; C13 reports both as
+valid-program-refused:gaussian:InvalidState:..._validate_cov), ffock-squeezing2-sign (only 1-2 % of the
+generated fermionic programs let two Squeezing2 amplitudes interfere and only a norm above one is flagged;
+missed again in a rerun on an idle machine with all 1350 programs), fock-purity-einsum-indices (no oracle).
 """
 
 GSTEPS = "piquasso/_simulators/gaussian/simulation_steps.py"
